@@ -355,7 +355,7 @@ pub mod value {
                     .append(meth)
                     .append("]")
             }
-            Text(s) => RcDoc::text(format!("'{}'", s.escape_debug())),
+            Text(s) => RcDoc::text(format!("'{}'", candid::pretty::candid::escape_text(s))),
             None => RcDoc::text("[]"),
             Opt(v) => enclose_space("[", pp_value(v), "]"),
             Blob(blob) => {
